@@ -338,7 +338,8 @@ int parse_directives(AsmContext *asm_context)
       return -1;
     }
 
-    return 0;
+    // Ends the assemble() call that was started for the taken branch.
+    return 5;
   }
     else
   if (strcmp(token, "else") == 0)
